@@ -4,6 +4,7 @@ import (
 	"fmt"
 	"go/token"
 	"go/types"
+	"os"
 	"sort"
 	"strings"
 	"sync"
@@ -38,6 +39,12 @@ type Config struct {
 	Debug       bool
 	// Concrete runs without a solver (used for init and selftests).
 	Concrete bool
+	// Pure lists functions (by ssa name, e.g. "github.com/dgrr/http2.hasUpperCase")
+	// whose calls are summarised: all callee paths are explored at the call and
+	// merged into one state at the return.
+	Pure map[string]bool
+	// Replace holds the opt-in stubs of this harness (target name -> function).
+	Replace map[string]*ssa.Function
 }
 
 type Violation struct {
@@ -111,6 +118,8 @@ type Exec struct {
 	mkSolver  func() *smt.Solver
 	stopped   bool
 	aggStats  *smt.Stats
+	objCounter int
+	PathHist   map[string]int
 }
 
 // SetSolver installs the solver used for feasibility and obligations.
@@ -153,7 +162,7 @@ func (ex *Exec) Ctx() *smt.Ctx          { return ex.ctx }
 
 func NewExec(p *Program, cfg Config) *Exec {
 	ctx := smt.NewCtx()
-	ex := &Exec{prog: p, ctx: ctx, cfg: cfg, base: map[int]*Object{}, globals: map[*ssa.Global]int{},
+	ex := &Exec{objCounter: 1 << 20, prog: p, ctx: ctx, cfg: cfg, base: map[int]*Object{}, globals: map[*ssa.Global]int{},
 		finfo: map[*ssa.Function]*FuncInfo{}, initDone: map[*ssa.Package]bool{}}
 	if cfg.Unwind == 0 {
 		ex.cfg.Unwind = 20
@@ -407,6 +416,10 @@ func (ex *Exec) concretize(st *State, t *smt.Term, what string) (uint64, error) 
 var errDead = fmt.Errorf("dead path")
 
 func (ex *Exec) push(st *State) {
+	if st.sink != nil {
+		*st.sink = append(*st.sink, st)
+		return
+	}
 	ex.work = append(ex.work, st)
 	if ex.cond != nil {
 		ex.cond.Signal()
@@ -614,6 +627,20 @@ func (ex *Exec) RunHarness(fn *ssa.Function) *Result {
 		return ex.res
 	}
 	ex.work = []*State{st}
+	if os.Getenv("GOSMT_PROGRESS") != "" {
+		stop := make(chan struct{})
+		defer close(stop)
+		go func() {
+			for {
+				select {
+				case <-stop:
+					return
+				case <-time.After(20 * time.Second):
+					fmt.Fprintf(os.Stderr, "progress %s: %.0fs paths=%d pending=%d forks=%d steps=%d violations=%d\n", fn.Name(), time.Since(t0).Seconds(), ex.res.Paths, len(ex.work), ex.res.Forks, ex.res.Steps, len(ex.res.Violations))
+				}
+			}
+		}()
+	}
 	ex.explore()
 	ex.res.Wall = time.Since(t0)
 	if ex.aggStats != nil {
@@ -779,6 +806,15 @@ func (ex *Exec) where(st *State) string {
 
 func (ex *Exec) finishPath(st *State) {
 	ex.res.Paths++
+	if ex.PathHist != nil {
+		k := ""
+		for _, te := range st.tape {
+			if te.Kind == "range" {
+				k += fmt.Sprintf("%d,", te.T.Val)
+			}
+		}
+		ex.PathHist[k+fmt.Sprintf(" pc=%d", len(st.pc)/10*10)]++
+	}
 	for _, n := range st.notes {
 		if strings.HasPrefix(n, "use-after-release") || strings.HasPrefix(n, "double-release") {
 			// ghost pool discipline failures are obligations
